@@ -53,7 +53,7 @@ CHECKS = {
  "C16": ("exploration", "property-based testing (proptest) from descriptor ASTs, bounded-exhaustive small descriptors, precise unterminated variants, single-edit corruptions, mapper==cache; exhaustive sweeps of array rank 1..255, parameter count 0..300, name length 1..300",
    "Generated and bounded-exhaustive search over the descriptor language; expected rendering computed from the AST and the reference class table.",
    "exhaustive=true refers to the 1813 small descriptors only.", "DESIGN.md §4 C16"),
- "C17": ("exploration", "property-based round-trip testing (proptest): try_parse(print(T)) == T and print idempotence; libFuzzer stage in thorough (from the text side: whatever parses into the domain must survive print -> parse -> print)",
+ "C17": ("exploration", "property-based round-trip testing (proptest): try_parse(print(T)) == T and print idempotence; libFuzzer stage in thorough (bytes decoded structurally into a trace, and from the text side: whatever parses into the domain must survive print -> parse -> print)",
    "Generated-input search over typed traces, frames and throwables in the statement's domain.",
    "Domain predicate taken from the statement.", "DESIGN.md §4 C17"),
  "C18": ("exploration", "property-based testing (proptest) against an independent SHA-1/UUIDv5 implementation; LF/CRLF metamorphic check; cross-process equality; stateful API sequences (in-place and permutation edits of one buffer, section()/clone() after uuid(), also on 17..130 MiB buffers incl. a new buffer at the address of a freed one, finite-difference edits preserving weighted checksums); Default objects; children under varied environments",
